@@ -1092,7 +1092,7 @@ def run(ctx):
                         'loss configuration is fixed at construction; attributes are not mutated between calls',
                         'multiplane weights are non-negative']
     ctx.gate()
-    ctx.ensure_theories(['theories/C17/Props.vo'])
+    ctx.ensure_theories(['theories/C17/Props.vo', 'theories/C17/TieTac.vo'])
     ctx.theorems('OdakV.C17.Props', PROPS)
     # ---- B1
     try:
